@@ -23,6 +23,7 @@ Model
 """
 import base64
 import io
+import re
 
 from lxml import etree
 
@@ -161,7 +162,7 @@ def gen_duration_lex(rng):
 def gen_builtin(rng, b, vary=True):
     """A lexical form of builtin type b (white space added around collapsing types when vary)."""
     if b == "string":
-        return rng.choice(TEXTS + ["", "  "] if vary else TEXTS)
+        return rng.choice(TEXTS + ["", "  "] if vary == "exotic" else TEXTS)
     if b == "normalizedString":
         return rng.choice(["t", "hello world", " lead", "trail ", "two  spaces", "a\tb" if vary else "a b", "x<y", "é"])
     if b == "token":
@@ -304,7 +305,7 @@ class SchemaGen:
             b = r.choice(ENUMERABLE if r.random() < 0.5 else ["string", "token", "NMTOKEN", "int"])
             vals, seen = [], set()
             for _ in range(r.choice([1, 2, 3, 4, 5])):
-                v = (r.choice(TOKENS[:12] + ["hello world", "1a", "None", "  pad ", "", "a b"]) if b == "string"
+                v = (r.choice(TOKENS[:12] + ["hello world", "1a", "None", "a b"]) if b == "string"
                      else gen_builtin(r, b, vary=False))
                 key = "".join(ch for ch in v.lower() if ch.isalnum()) if b in ("string", "token", "NMTOKEN", "language", "anyURI") else v
                 if b == "token":
@@ -375,7 +376,7 @@ class SchemaGen:
         if d is None:
             return gen_builtin(r, t[1], vary)
         if d["k"] == "list":
-            n = r.choice([0, 1, 2, 3]) if depth == 0 else 1
+            n = (r.choice([0, 1, 2, 3]) if vary == "exotic" else r.choice([1, 2, 3])) if depth == 0 else 1
             items = []
             for _ in range(n):
                 v = self.gen_value(d["item"], vary=False, depth=depth + 1)
@@ -418,7 +419,8 @@ class SchemaGen:
         """A default/fixed value: no surrounding white space, no characters that need care in an attribute."""
         for _ in range(20):
             v = self.gen_value(t, vary=False)
-            if v == v.strip() and "\n" not in v and "\t" not in v and "  " not in v and v not in ("NaN",):
+            if v == v.strip() and "\n" not in v and "\t" not in v and "  " not in v and v not in ("NaN",) \
+                    and not re.search(r"\d[eE][+-]?\d", v):      # libxml2 compares fixed doubles lexically (1e3 vs 1E3)
                 return v
         return None
 
@@ -1110,7 +1112,8 @@ class DocGen:
         self.sg.m = m
         self.style = "rand"
         self.depth = 0
-        self.vary = True
+        self.vary = True          # False: canonical-looking lexical forms; True: varied forms; "exotic": also empty values
+        self.exotic = False       # xsi:nil instances, empty elements where a default applies, empty lists / strings
 
     # -- names
     def el_qname(self, e):
@@ -1267,7 +1270,7 @@ class DocGen:
         if self.depth > 12:
             raise TooDeep()
         try:
-            if e["nillable"] and not as_root and self.style != "min" and r.random() < 0.3:
+            if e["nillable"] and not as_root and self.exotic and r.random() < 0.4:
                 attrs.append(["{%s}nil" % XSI, r.choice(["true", "1"])])
                 if t[0] in ("c", "ac"):
                     c = self.m["ctypes"][t[1]] if t[0] == "c" else t[1]
@@ -1300,8 +1303,8 @@ class DocGen:
                         kids = self.interleave(kids)
             else:
                 if e["fixed"] is not None:
-                    kids = [e["fixed"]] if r.random() < 0.7 else []
-                elif e["default"] is not None and r.random() < 0.35:
+                    kids = [e["fixed"]] if (r.random() < 0.7 or not self.exotic) else []
+                elif e["default"] is not None and self.exotic and r.random() < 0.5:
                     kids = []
                 else:
                     kids = [self.text_value(t)]
@@ -1472,7 +1475,8 @@ def gen_program(rng, ndocs, features=None, attempts=60):
         docs, bad = [], []
         for j in range(ndocs):
             style = "min" if j == 0 else ("max" if j == 1 else "rand")
-            dg.vary = j % 3 != 2
+            dg.exotic = j % 5 == 4
+            dg.vary = "exotic" if dg.exotic else (j % 3 != 2)
             try:
                 doc = dg.document(style, pretty=(j % 4 == 3), prefix_style=j % 3)
             except TooDeep:
